@@ -508,6 +508,34 @@ func c03Dispatch(c *mc.Ctx) []c03Family {
 			return EncodePkts(ps)
 		}, bound: "PES flag byte 1 (1 value quick / 8 thorough) x all 256 values of flag byte 2 x all 256 extension flag bytes (when the extension flag is set) x header_data_length classes x optional-field area cut at every length"})
 
+	// (2b) PES units that end inside their own header: every header_data_length x the first bytes of the
+	// optional-field area present x PES_packet_length classes (unbounded, header only, header + 50, maximum, 1)
+	f2s := []byte{0x00, 0x80, 0xc0, 0x01, 0x3e}
+	fams = append(fams, c03Family{name: "pes-dispatch:truncated-header", n: int64(len(f2s)) * 256 * 24 * 5, cfgs: dataCfgs[:1],
+		gen: func(i int64) []byte {
+			f2 := f2s[i%int64(len(f2s))]
+			i /= int64(len(f2s))
+			hdl := int(i % 256)
+			i /= 256
+			cut := int(i % 24)
+			i /= 24
+			plen := []int{0, 3 + hdl, 3 + hdl + 50, 0xffff, 1}[i]
+			if plen > 0xffff {
+				plen = 0xffff
+			}
+			pes := []byte{0, 0, 1, 0xc0, byte(plen >> 8), byte(plen), 0x80, f2, byte(hdl)}
+			for k := 0; k < cut; k++ {
+				pes = append(pes, byte(0x21+k*2))
+			}
+			cc := uint8(0)
+			ps := Packetize(SUnit{PID: 0x100, Bytes: pes}, nil, &cc, false)
+			// a second unit start so that the first one is flushed mid-stream as well as (variant) only at the end
+			if hdl%2 == 0 {
+				ps = append(ps, Packetize(PESUnit(0x100, 0xc0, []byte{1, 2, 3}, 5, true), nil, &cc, false)...)
+			}
+			return EncodePkts(ps)
+		}, bound: "5 flag bytes x every PES_header_data_length 0..255 x 0..23 bytes of the optional-field area present x 5 PES_packet_length classes; flushed by a following unit or at end of stream"})
+
 	// (3) table_id x section_length x PID
 	sls := []int{0, 1, 3, 4, 5, 8, 9, 12, 13, 17, 0x3fd, 0xfff}
 	pidsT := []uint16{0x00, 0x10, 0x11, 0x12, 0x14, 0x1000}
